@@ -293,6 +293,7 @@ impl<'a> Worker<'a> {
             "extract-roundtrip" => crate::checks::c17::oracle_extract_roundtrip(self, case),
             "multisource" => crate::checks::c17::oracle_multisource(self, case),
             "readback" => crate::checks::c03::oracle_readback(self, case),
+            "fieldwise" => crate::checks::fields::oracle_fieldwise(self, case),
             other => {
                 self.harness_errors.push(format!("unknown oracle {}", other));
                 vec![]
